@@ -114,11 +114,18 @@ fn to_condition(any: bool, neg: bool, items: &[C]) -> Condition {
             C::Group { any, neg, items } => c.add_option(Some(to_condition(*any, *neg, items))),
         };
     }
+    // `not()` toggles: in the repeated-negation pass a negated group is reached by three calls, a plain one by two
+    if NOT_REPEATED.load(std::sync::atomic::Ordering::Relaxed) {
+        c = c.not().not();
+    }
     if neg {
         c = c.not();
     }
     c
 }
+
+/// when set, `to_condition` reaches every group's negation state through two additional `not()` calls
+static NOT_REPEATED: std::sync::atomic::AtomicBool = std::sync::atomic::AtomicBool::new(false);
 
 /// one condition-adding call
 #[derive(Clone, Debug, PartialEq)]
@@ -1025,6 +1032,27 @@ pub fn run(rep: &Arc<Report>) {
             }
         }
     });
+    // (i-d) repeated negation: the small tree set once more, every group negated two more times than it needs
+    NOT_REPEATED.store(true, std::sync::atomic::Ordering::Relaxed);
+    par_items(&small, |_w, t| {
+        let calls = [Call::Cond(t.clone())];
+        for ctx in [Ctx::SelectWhere, Ctx::Having, Ctx::JoinOn, Ctx::CaseWhen, Ctx::DeleteWhere] {
+            for d in DIALECTS {
+                match check_calls(ctx, d, &calls, Some(&st)) {
+                    Ok(true) => evals.inc(),
+                    Ok(false) => {}
+                    Err((sig, det)) => {
+                        evals.inc();
+                        rep.raw_failures.inc();
+                        let det: String = det.chars().take(500).collect();
+                        rep.violation(Violation { key: format!("{:?}|{}|{}|repeated-not|{}", ctx, d.name(), sig, show_calls(&calls)), what: format!("{:?} on {}: calls [{}] with every group negated two more times than needed: {}", ctx, d.name(), show_calls(&calls), det), case: json!({"ctx": format!("{:?}", ctx), "dialect": d.name(), "calls": calls_to_json(&calls), "not_repeated": true}) });
+                    }
+                }
+            }
+        }
+    });
+    NOT_REPEATED.store(false, std::sync::atomic::Ordering::Relaxed);
+    rep.set("trees_with_repeated_negation", json!(small.len()));
     // (ii) sequences of up to 3 condition-adding calls
     let mut pool: Vec<C> = gen_groups(1, 2, 3).into_iter().map(|(c, _)| c).collect();
     // representatives of deeper shapes: nested group kinds that trigger unwrap / merge / wrap
@@ -1146,6 +1174,9 @@ pub fn run(rep: &Arc<Report>) {
 }
 
 pub fn replay(case: &serde_json::Value) -> Option<String> {
+    if case["not_repeated"].as_bool() == Some(true) {
+        NOT_REPEATED.store(true, std::sync::atomic::Ordering::Relaxed);
+    }
     if let Some(seq) = case["oc_sequence"].as_array() {
         let d = Dialect::from_name(case["dialect"].as_str().unwrap_or("sqlite"));
         let calls: Vec<OcCall> = seq.iter().filter_map(|x| x.as_str().and_then(|n| OC_MENU.iter().copied().find(|c| format!("{:?}", c) == n))).collect();
